@@ -27,6 +27,8 @@ func main() {
 		os.Exit(delaysMain(os.Args[2:]))
 	case "meta":
 		os.Exit(metaMain(os.Args[2:]))
+	case "lookupsync":
+		os.Exit(lookupsyncMain(os.Args[2:]))
 	}
 	fmt.Fprintln(os.Stderr, "unknown subcommand")
 	os.Exit(2)
